@@ -36,8 +36,15 @@ where
     let mut next = 0usize;
     while next < jobs.len() {
         let mut fds = [0i32; 2];
+        let mut efds = [0i32; 2];
         unsafe {
             assert_eq!(libc::pipe(fds.as_mut_ptr()), 0);
+            assert_eq!(libc::pipe(efds.as_mut_ptr()), 0);
+            // the parent reads the child's stderr only after the child died: never block on it
+            let fl = libc::fcntl(efds[0], libc::F_GETFL);
+            libc::fcntl(efds[0], libc::F_SETFL, fl | libc::O_NONBLOCK);
+            let fl = libc::fcntl(efds[1], libc::F_GETFL);
+            libc::fcntl(efds[1], libc::F_SETFL, fl | libc::O_NONBLOCK);
         }
         let pid = unsafe { libc::fork() };
         assert!(pid >= 0, "fork failed");
@@ -45,6 +52,8 @@ where
             // ---- child
             unsafe {
                 libc::close(fds[0]);
+                libc::close(efds[0]);
+                libc::dup2(efds[1], 2);
                 if limits.address_space > 0 {
                     let rl = libc::rlimit { rlim_cur: limits.address_space, rlim_max: limits.address_space };
                     libc::setrlimit(libc::RLIMIT_AS, &rl);
@@ -79,7 +88,17 @@ where
         // ---- parent
         unsafe {
             libc::close(fds[1]);
+            libc::close(efds[1]);
         }
+        let read_stderr = |fd: i32| -> String {
+            let mut buf = vec![0u8; 8192];
+            let n = unsafe { libc::read(fd, buf.as_mut_ptr() as *mut libc::c_void, buf.len()) };
+            if n > 0 {
+                String::from_utf8_lossy(&buf[..n as usize]).chars().take(400).collect()
+            } else {
+                String::new()
+            }
+        };
         let file = unsafe { std::fs::File::from_raw_fd(fds[0]) };
         let mut reader = BufReader::new(file);
         let mut line = String::new();
@@ -128,7 +147,7 @@ where
                     }
                     let sig = if libc::WIFSIGNALED(st) { libc::WTERMSIG(st) } else { 0 };
                     let code = if libc::WIFEXITED(st) { libc::WEXITSTATUS(st) } else { -1 };
-                    results.push(json!({"crash": "abort", "signal": sig, "exit": code}));
+                    results.push(json!({"crash": "abort", "signal": sig, "exit": code, "stderr": read_stderr(efds[0])}));
                     next += 1;
                     died = true;
                     break;
@@ -145,6 +164,9 @@ where
             unsafe {
                 libc::waitpid(pid, &mut st, 0);
             }
+        }
+        unsafe {
+            libc::close(efds[0]);
         }
     }
     results
